@@ -148,7 +148,9 @@ func (w *webWriter) flushWithTrailer() {
 		for key, val := range hdr {
 			if strings.HasPrefix(key, http.TrailerPrefix) {
 				delete(hdr, key)
-				hdr[strings.TrimPrefix(key, http.TrailerPrefix)] = val
+				// A header of the same name keeps its values.
+				name := strings.TrimPrefix(key, http.TrailerPrefix)
+				hdr[name] = append(hdr[name], val...)
 			}
 		}
 	}
